@@ -12,7 +12,11 @@ object graph (every attribute of the connection, its stats, callbacks, fragment 
 server context with its pools and the handler's event log, the client with its socket) taken
 before and after each injected datagram must be equal except stats.dropped (+1), the call
 must return False, nothing may reach the application; a session with injected forgeries must
-end in the same state and with the same deliveries / callbacks as its twin without them."""
+end in the same state and with the same deliveries / callbacks as its twin without them.
+Server loop (harness/srvx.py, every front door): twin worlds with forgeries next to genuine datagrams (server_loop_forgeries), and
+silent-victim twin worlds (server_loop_silent_victims): a peer that stopped sending, with keyless forgeries from its address in every
+tick / every other tick / in bursts / around the deadline, must be dropped by the loop's time-out scan at exactly the twin's tick
+(liveness as the application sees it: EventHandler.disconnect, pool membership); both also replayed on Server.v (srv_run)."""
 import struct, binascii, collections, inspect, logging, random, enum, types
 from harness import lib
 from harness import connsim as S
